@@ -31,7 +31,7 @@ pub fn check(deep: bool, pairs: &mut usize, skipped: &mut usize, fails: &mut Vec
         (fol::Variable { name: "M1".into(), sort: fol::Sort::Integer }, &int_terms),
     ];
     let mut formulas: Vec<(String, fol::Formula)> = Vec::new();
-    for t in corpus(deep) { if let Ok(f) = fol::Formula::from_str(&t) { if crate::simp::quantified_variables(&f) <= 12 && exactly_evaluable(&f) { formulas.push((t, f)); } } }
+    for t in corpus(deep) { if let Ok(f) = fol::Formula::from_str(&t) { if crate::simp::quantified_variables(&f) <= 12 && (exactly_evaluable(&f) || crate::simp::pure_small(&f)) { formulas.push((t, f)); } } }
     // formulas in which a quantifier binds a name that also occurs in some substituted term
     let hand_written_from = formulas.len();
     for t in ["exists Z (Z = X and p(Z))", "forall Y (q(Y) -> q(X, Y))", "exists N$i (N$i = X and p(N$i))", "exists X (p(X) and q(X, Y))", "exists Z (p(Z) and exists Z1 (Z1 = X and q(Z, Z1)))", "forall M$i (p(M$i) -> q(N$i, M$i))",
@@ -67,7 +67,13 @@ pub fn check(deep: bool, pairs: &mut usize, skipped: &mut usize, fails: &mut Vec
         let (mut a, mut b) = (want.clone(), fv_r.clone());
         a.sort(); b.sort();
         if a != b { return Some(Failure { property: "C17", input: what, detail: format!("result `{result}` has free variables {:?}, expected {:?}", b, a) }); }
-        if !exactly_evaluable(&result) || !exactly_evaluable(f) { return Some(Failure { property: "skip", input: String::new(), detail: String::new() }); }
+        let seed0 = what.bytes().fold(0xcbf29ce484222325u64, |h, b| (h ^ b as u64).wrapping_mul(0x100000001b3));
+        // interpretations with co-finite extents (pure.rs), for formulas and terms without arithmetic and order comparisons
+        let pure = crate::pure::is_pure(f) && crate::pure::is_pure(&result) && crate::pure::pure_term(&term) && crate::pure::variable_count(f).max(crate::pure::variable_count(&result)) <= 3;
+        if pure {
+            if let Some(d) = crate::pure::first_subst_difference(f, &result, var, &term, if deep { 16 } else { 6 }, seed0) { return Some(Failure { property: "C17", input: what, detail: d }); }
+        }
+        if !exactly_evaluable(&result) || !exactly_evaluable(f) { return if pure { None } else { Some(Failure { property: "skip", input: String::new(), detail: String::new() }) }; }
         let (ef, er) = (cheapest_first(f), cheapest_first(&result));
         // assignments of all free variables of formula and term
         let mut all = fv_f.clone();
